@@ -179,6 +179,12 @@ func c17StageRun(c c17StageCase) (viol string, desc string, info map[string]any)
 	res = eng.Run(s.tmpl, s.asg, eng.Options{Mode: eng.Mode(c.Mode)})
 	info["noncanonical"] = res.Outcome.String()
 	info["rejected_at"] = res.Site
+	if res.Outcome != eng.Accept && res.FreeDivs > 0 {
+		// unconstrained DivUnchecked(0,0) wires on the way: the prover chooses them (and, with them, the limb hints)
+		if r3 := eng.Run(s.tmpl, s.asg, eng.Options{Mode: eng.Mode(c.Mode), FreeDiv: big.NewInt(1)}); r3.Outcome == eng.Accept {
+			return "noncanonical-accepted-with-free-wire", fmt.Sprintf("%s/k=%d range-check stage: %s = %s + %s*p is ACCEPTED when the unconstrained result of DivUnchecked(0,0) is chosen as 1", c.Base, c.K, c.Leaf, v, m), info
+		}
+	}
 	if res.Outcome == eng.Accept {
 		// two-stage confirmation: a wrong ACCEPT must also show under bit decomposition
 		res2 := eng.Run(s.tmpl, s.asg, eng.Options{Mode: eng.ModePlain})
